@@ -145,6 +145,13 @@ def apply_fault(text, f):
         else:
             parts = "".join("%s(%s)" % (nm, f.get("args", "")) for nm in names)
         return text[:s] + head + "=(" + parts + ");" + text[e:], True, kind
+    if kind == "garble":
+        # a value token replaced by a short string over the Part 21 punctuation alphabet
+        vals = [t for t in toks if t[2] in ("number", "string", "enum", "ref", "binary")] or toks
+        if not vals:
+            return text, False, "no-tokens"
+        s, e, tk = vals[f["tok"] % len(vals)]
+        return text[:s] + f.get("text", "") + text[e:], text[s:e] != f.get("text", ""), "garble-" + tk
     if kind == "insert":
         at = f["at"] % (n + 1)
         return text[:at] + f.get("text", "") + text[at:], bool(f.get("text")), _region(text, at)
@@ -185,7 +192,7 @@ def apply_all(text, faults):
 def gen_fault(r, kinds=None, schema_names=None):
     """one seeded fault"""
     kinds = kinds or ["truncate", "flip", "nul", "hibit", "tok-del", "tok-dup", "tok-swap", "stretch", "paren", "nest",
-                      "complex-parts", "illegal-complex"]
+                      "complex-parts", "illegal-complex", "garble", "garble"]
     k = r.choice(kinds)
     big = r.randint(0, 10 ** 9)
     if k == "truncate":
@@ -204,6 +211,9 @@ def gen_fault(r, kinds=None, schema_names=None):
         if cls == "string":
             f["fill"] = r.choice(["a", "q"])
         return f
+    if k == "garble":
+        alphabet = "(),;$*#'\".1A-+E\\/ \n"
+        return {"kind": k, "tok": big, "text": "".join(r.choice(alphabet) for _ in range(r.choice([1, 1, 2, 2, 3, 4])))}
     if k == "paren":
         return {"kind": k, "tok": big, "ch": r.choice("()"), "mode": r.choice(["ins", "del"])}
     if k == "nest":
